@@ -11,7 +11,7 @@ CASES = {'quick': 1500, 'thorough': 40000}
 GATES = {
     'quick': {'evaluations': 30000, 'equal_pairs': 15000, 'token_perturbations': 3000, 'child_perturbations': 2500,
               'attribution_perturbations': 500, 'type_perturbations': 300, 'class_fields_perturbed': 120, 'token_law_pairs': 10000,
-              'whole_file_text_perturbations': 3000, 'token_law_after_edit': 3000, 'documents_in_small_blocks': 400, 'same_text_same_tree_pairs': 300, 'models_with_custom_indent_by': 200,
+              'whole_file_text_perturbations': 3000, 'token_law_after_edit': 3000, 'documents_in_small_blocks': 400, 'same_span_parent_child_pairs': 2000, 'same_text_same_tree_pairs': 300, 'models_with_custom_indent_by': 200,
               'submodel_copies': 4000},
     'thorough': {'evaluations': 800000, 'class_fields_perturbed': 160},
 }
@@ -143,6 +143,19 @@ def run_case(col, r, idx):
         if not expect_equal(col, m, copy.deepcopy(m), f'deepcopy-submodel:{type(m).__name__}', f'{path} and its own deep copy',
                             dict(wit, path=path, lf=lf)):
             return
+    # a model and a child that spans exactly the same tokens (an expression and its only term, a cost and its braces) are models of
+    # different types: never equal
+    n_same_span = 0
+    for path, m in pa.items():
+        if not isinstance(m, mbase.RawTreeModel) or n_same_span >= 12:
+            continue
+        for k_, c_ in walker.children(m):
+            if isinstance(c_, mbase.RawTreeModel) and type(c_) is not type(m) and c_.first_token is m.first_token and c_.last_token is m.last_token:
+                n_same_span += 1
+                col.count('same_span_parent_child_pairs')
+                if not expect_unequal(col, m, c_, f'same-span:{type(m).__name__}/{type(c_).__name__}', f'{path} and its child {k_} (same tokens, other type)',
+                                      dict(wit, path=path)):
+                    return
     # token laws on tokens of this document
     toks = [t for t in a.token_store]
     for _ in range(min(40, len(toks))):
